@@ -61,7 +61,7 @@ pub struct InlineCase {
 /// File names use every kind of character TeX accepts in a name (tex.web 526: any character
 /// token up to "other", i.e. also `_ & $ # ^`), and a file named by their common prefix exists too,
 /// so that a name scan that stops early reads a different, existing file.
-const FILE_NAMES: [&str; 6] = ["fa", "f_b", "fc", "f&d", "f$e", "f^g"];
+const FILE_NAMES: [&str; 6] = ["fa", "f_b", "f.c", "f&d", "f$e", "f^g"];
 const PREFIX_FILE: (&str, &str) = ("f.tex", "TRUNCATED\n");
 
 fn file_name(i: usize) -> String {
@@ -71,12 +71,28 @@ fn file_name(i: usize) -> String {
 fn render_piece(p: &Piece) -> String {
     match p {
         Piece::Text(s) => s.clone(),
-        Piece::Input { file, term } => match term {
-            Term::Space => format!("\\input {} ", file_name(*file)),
-            Term::Relax => format!("\\input {}\\relax ", file_name(*file)),
-            Term::Eol => format!("\\input {}", file_name(*file)),
-            Term::Ext => format!("\\input {}.tex ", file_name(*file)),
-        },
+        Piece::Input { file, term } => {
+            // A name that contains a dot is always written with its extension: without it, TeX
+            // takes what follows the last dot as the extension (a different file).
+            let name = file_name(*file);
+            let name = if name.contains('.') {
+                format!("{name}.tex")
+            } else {
+                name
+            };
+            match term {
+                Term::Space => format!("\\input {name} "),
+                Term::Relax => format!("\\input {name}\\relax "),
+                Term::Eol => format!("\\input {name}"),
+                Term::Ext => {
+                    if name.ends_with(".tex") {
+                        format!("\\input {name} ")
+                    } else {
+                        format!("\\input {name}.tex ")
+                    }
+                }
+            }
+        }
         Piece::EndInput => "\\endinput ".to_string(),
     }
 }
@@ -695,15 +711,25 @@ impl StreamModel {
     }
 }
 
-const STREAM_FILE_NAMES: [&str; 4] = ["s0", "s_1", "s&2", "s$3"];
+const STREAM_FILE_NAMES: [&str; 4] = ["s0", "s_1", "s.2", "s$3"];
 
 fn stream_file_name(i: usize) -> String {
     STREAM_FILE_NAMES[i % STREAM_FILE_NAMES.len()].to_string()
 }
 
+/// The name as written after `\\openin n=`: dotted names carry their extension.
+fn stream_file_written(i: usize) -> String {
+    let n = stream_file_name(i);
+    if n.contains('.') {
+        format!("{n}.tex")
+    } else {
+        n
+    }
+}
+
 fn sop_text(op: &SOp) -> String {
     match op {
-        SOp::OpenIn { n, file } => format!("\\openin{n}={} ", stream_file_name(*file)),
+        SOp::OpenIn { n, file } => format!("\\openin{n}={} ", stream_file_written(*file)),
         SOp::Read { n, target } => {
             let t = TARGETS[*target as usize];
             format!("\\read{n} to{t}")
